@@ -137,6 +137,9 @@ type FnEnc struct {
 	heapCache  map[string]string
 	unresolvedNote []string
 	unmodelled map[string]bool
+	relevant   map[string]bool
+	lastFreshMods map[string]bool
+	lastFullMods  map[string]bool
 }
 
 type loopInfo struct {
@@ -163,8 +166,10 @@ func (f *FnEnc) def(prefix, srt, term string) string {
 		return term
 	}
 	n := f.sym(prefix)
-	if strings.HasPrefix(srt, "(Array") {
-		// arrays are used in quantifier patterns: keep them uninterpreted constants
+	if strings.HasPrefix(srt, "(Array") || (srt == "Int" && !strings.HasPrefix(prefix, "idx") && !strings.HasPrefix(prefix, "ref")) {
+		// arrays, and integers (which end up as indices), are used in quantifier patterns: keep
+		// them uninterpreted constants so that the solver's arithmetic normalisation does not
+		// change the shape of index terms
 		f.emit("(declare-fun %s () %s)", n, srt)
 		f.emit("(assert (= %s %s))", n, term)
 		return n
@@ -511,6 +516,9 @@ func (f *FnEnc) typeFacts(t types.Type, v string) string {
 	case *types.Interface:
 		return fmt.Sprintf("(and (>= (a.tid %s) 0) (=> (= (a.tid %s) 0) (= (a.val %s) 0)) (=> (isPtrTid (a.tid %s)) (<= (a.val %s) %s)))", v, v, v, v, v, f.comp("W"))
 	case *types.Struct:
+		if f.e.reg.isOpaqueStruct(t) {
+			return "true"
+		}
 		si := f.e.reg.structInfo(t)
 		var parts []string
 		for _, fi := range si.Fields {
@@ -922,6 +930,10 @@ func (f *FnEnc) baseEnv(st *State) map[string]string {
 				key = fmt.Sprintf("%s#%d", n, seen2[n])
 			}
 			a, ok := f.addrs[c]
+			if ok && a.Kind == akObj {
+				env[key+"&"] = a.Ref
+				continue
+			}
 			if !ok || a.Kind != akBox {
 				continue
 			}
